@@ -158,6 +158,21 @@ CLAIMED = {
    note="DefaultToken.info / JWTToken.info / handler order sit at the interface (`decode`); 'expired signature' and 'foreign key' refusals are observed by "
         "correspondence; accepting behaviour of the mutating slots is C02/C03.",
    technique="Lean 4 proof (decision logic, crypto-independent) + mutation correspondence at every endpoint slot", ref="6 C04"),
+ "C13": dict(
+   text="Lean theorems: (export/import) load of a dump into a fresh instance is the identity on every attribute that is exported or re-derived by "
+        "the constructor (restore_exact), with the counter-example for an unexported attribute, dump∘load∘dump = dump, and the generated table "
+        "obligation that every attribute a constructor of any ImpExp subclass assigns is exported or on a justified configuration list "
+        "(all_state_exported, over parameter tables and constructor ASTs regenerated from /repo); equal states have equal futures in the provider "
+        "core model. (file store) for every sequence of set/get/del/contains/keys/len/clear/new-instance over well-formed keys, a NEW instance over "
+        "the directory answers get and lists keys exactly like a plain dictionary (fresh_instance_sees_dictionary, fresh_instance_lists_dictionary, "
+        "by a representation invariant over the directory incl. lock files and the instance cache); URL-shaped keys are well-formed under "
+        "quote_plus; counter-examples outside the guard ('.lock' keys, pass-through values with surrounding whitespace). Tie: crash-point "
+        "correspondence — generated provider histories with export / discard / import before every step, at subsets and single points, via "
+        "session manager, endpoint context and JSON text, opaque and JWT handlers, three ways of pinning keys — against the Lean provider model "
+        "(restore must be the identity) and against the unrestored run; per-object ImpExp model vs restored attributes; registration / jti / PAR / "
+        "CIBA state across restores; file-store operation sequences on real directories vs the Lean model.",
+   note="Relying-party side export/import (Current, ServiceContext) is not yet exercised; JSON value syntax, mtime granularity and concurrent writers are not modelled.",
+   technique="Lean 4 proof (invariant by induction over file-store operations; generic dump/load law + generated table obligation) + crash-point correspondence", ref="6 C13"),
 }
 NOT_YET = {}
 ALL = [f"C{i:02d}" for i in range(1, 21)]
